@@ -412,10 +412,14 @@ def make_adapters_from_one_specification(
         parameters.update(parse_search_parameters(parameters_spec))
         for name, spec in read_adapters_fasta(path):
             # The anchoring suffix belongs to the sequence, not to the
-            # parameters that may follow it in the FASTA record
-            sequence, semicolon, record_parameters = spec.partition(";")
+            # parameters that may follow it in the FASTA record. In a
+            # linked adapter, it belongs to the sequence of the 3' part.
+            head, ellipsis, last = spec.rpartition("...")
+            sequence, semicolon, record_parameters = last.partition(";")
             yield make_adapter(
                 anchoring_prefix
+                + head
+                + ellipsis
                 + sequence
                 + anchoring_suffix
                 + semicolon
